@@ -39,10 +39,6 @@ def evalLoop : Nat → Bool → List Int → List Bop → List Char → Option I
 
 def eval (s : List Char) : Option Int := evalLoop (s.length + 1) true [] [] s
 
-#eval eval "2 * 3^2 ^2*5 - 7/ 2".toList
-#eval eval "-2^2 - -3".toList
-#eval eval "1 +".toList
-#eval eval "007".toList
 
 
 /-! ### rendering of token lists and the loop on rendered text -/
@@ -277,5 +273,4 @@ theorem eval_render (pad : Nat → Nat) (n0 : Int) (toks : List (Bop × Int)) :
   rw [evalLoop_render pad toks 1 _ [n0] [] (by omega)]
   exact yard_eq_conv n0 toks
 
-#print axioms eval_render
 end P.YP
